@@ -100,6 +100,11 @@ type messageExchange struct {
 
 	shutdownAtomic atomic.Bool
 	errChNotified  atomic.Bool
+
+	// frameDropped is set once a frame could not be forwarded because errCh
+	// was notified while recvCh was full. All later frames are refused too,
+	// so that the receiver never sees a frame sequence with a hole in it.
+	frameDropped atomic.Bool
 }
 
 // checkError is called before waiting on the mex channels.
@@ -125,6 +130,12 @@ func (mex *messageExchange) forwardPeerFrame(frame *Frame) error {
 		return GetContextError(err)
 	}
 
+	// Once a frame has been dropped, delivering a later one would leave a
+	// gap in the frames seen by the receiver.
+	if mex.frameDropped.Load() {
+		return mex.errCh.err
+	}
+
 	select {
 	case mex.recvCh <- frame:
 		return nil
@@ -140,6 +151,7 @@ func (mex *messageExchange) forwardPeerFrame(frame *Frame) error {
 			return nil
 		default:
 		}
+		mex.frameDropped.Store(true)
 		return mex.errCh.err
 	}
 }
